@@ -150,6 +150,12 @@ def main():
                     if st is not None and len(st) == len(xs_k):
                         xs_k = [p_ + q_ for p_, q_ in zip(xs_k, st)]
                 xmax = max([abs(v) for v in xs_k if math.isfinite(v)] + [0.0])
+                if xmax > 1e10:
+                    # a run that has diverged to coordinates of 1e10 and beyond: one ulp of such a
+                    # coordinate (>= 1e-6) flips the kernels' internal gates (0.05, EPSILON), after which
+                    # whole rows differ; shapes were compared above, the numbers are not
+                    S["iterations_skipped_huge_coordinates"] = S.get("iterations_skipped_huge_coordinates", 0) + 1
+                    continue
                 if scale > 1e100:
                     continue  # overflow territory: Lean has no overflow-safe hypot
                 for a, b in zip(ri, rm):
